@@ -33,6 +33,9 @@ type C19Case struct {
 	Events  []ev.Event `json:"events,omitempty"`
 	Dest2   string     `json:"dest2,omitempty"`
 	Forward bool       `json:"forward,omitempty"`
+	// Holder (mode "ref"): what field B is and where in it the reference sits - "" the field itself,
+	// "map" map[string]Dest2 ({"k" = $x}), "slice" []Dest2 ([$x]), "array" [1]Dest2 ([$x]): one resolving path each
+	Holder string `json:"holder,omitempty"`
 }
 
 func isFloatDest(d string) bool { return d == "float32" || d == "float64" }
@@ -99,13 +102,29 @@ func c19CheckMulti(c *C19Case, ctx *Ctx) error {
 		evs = []ev.Event{{K: ev.BD}, {K: ev.Version}, {K: ev.Map}}
 		marked := []ev.Event{key("A"), {K: ev.Marker, Bs: []byte("x")}, c.Event}
 		ref := []ev.Event{key("B"), {K: ev.RefLocal, Bs: []byte("x")}}
+		switch c.Holder {
+		case "map":
+			ref = []ev.Event{key("B"), {K: ev.Map}, key("k"), {K: ev.RefLocal, Bs: []byte("x")}, {K: ev.End}}
+		case "slice", "array":
+			ref = []ev.Event{key("B"), {K: ev.List}, {K: ev.RefLocal, Bs: []byte("x")}, {K: ev.End}}
+		}
 		if c.Forward {
 			evs = append(append(evs, ref...), marked...)
 		} else {
 			evs = append(append(evs, marked...), ref...)
 		}
 		evs = append(evs, ev.Event{K: ev.End}, ev.Event{K: ev.ED})
-		st := reflect.StructOf([]reflect.StructField{{Name: "A", Type: elemType(c.Dest)}, {Name: "B", Type: elemType(c.Dest2)}})
+		bType := elemType(c.Dest2)
+		switch c.Holder {
+		case "map":
+			bType = reflect.MapOf(reflect.TypeOf(""), bType)
+		case "slice":
+			bType = reflect.SliceOf(bType)
+		case "array":
+			bType = reflect.ArrayOf(1, bType)
+		}
+		ctx.LabelIf(c.Holder != "", "reference inside a "+c.Holder)
+		st := reflect.StructOf([]reflect.StructField{{Name: "A", Type: elemType(c.Dest)}, {Name: "B", Type: bType}})
 		template = reflect.Zero(st).Interface()
 		ctx.Label("dest2:" + c.Dest2)
 	}
@@ -208,7 +227,20 @@ func c19CheckMulti(c *C19Case, ctx *Ctx) error {
 		ctx.Label("ref: marked field not exact, reference not judged")
 		return nil
 	}
-	return c19Judge(&nums[0], c.Dest2, rv.Field(1).Interface(), fmt.Sprintf("reference to the marked value %v (field A is %s) resolved into field B %s via %s (forward=%v)", nums[0], c.Dest, c.Dest2, c.Via, c.Forward))
+	fb := rv.Field(1)
+	switch c.Holder {
+	case "map":
+		if fb.Len() != 1 || !fb.MapIndex(reflect.ValueOf("k")).IsValid() {
+			return fmt.Errorf("reference to the marked value %v inside map field B (map[string]%s) via %s: the map came back as %s; no error was returned", nums[0], c.Dest2, c.Via, describe(fb.Interface()))
+		}
+		fb = fb.MapIndex(reflect.ValueOf("k"))
+	case "slice", "array":
+		if fb.Len() != 1 {
+			return fmt.Errorf("reference to the marked value %v inside %s field B of %s via %s: it came back as %s; no error was returned", nums[0], c.Holder, c.Dest2, c.Via, describe(fb.Interface()))
+		}
+		fb = fb.Index(0)
+	}
+	return c19Judge(&nums[0], c.Dest2, fb.Interface(), fmt.Sprintf("reference to the marked value %v (field A is %s) resolved into field B %s (holder %q) via %s (forward=%v)", nums[0], c.Dest, c.Dest2, c.Holder, c.Via, c.Forward))
 }
 
 var c19Dests = []string{"int8", "int16", "int32", "int64", "int", "uint8", "uint16", "uint32", "uint64", "uint", "float32", "float64",
@@ -476,6 +508,12 @@ func init() {
 				c.Mode = "ref"
 				c.Dest2 = c19Dests[rapid.IntRange(0, len(c19Dests)-1).Draw(t, "dest2")]
 				c.Forward = rapid.Bool().Draw(t, "forward")
+				c.Holder = rapid.SampledFrom([]string{"", "", "map", "slice", "array"}).Draw(t, "holder")
+				if c.Holder == "array" && c.Forward && findingOpen("S80-pointers-inside-by-value-containers") {
+					// a reference that is filled in after the Go array was copied into its parent is lost (S80, listed under C20)
+					ctx.Stats.Exclude("S80-pointers-inside-by-value-containers")
+					c.Forward = false
+				}
 				if (isFloatDest(c.Dest) || c.Dest == "bigfloat" || c.Dest == "pbigfloat") && isFloatDest(c.Dest2) && findingOpen("S76-reference-float-to-float32-rounds") {
 					ctx.Stats.Exclude("S76-reference-float-to-float32-rounds")
 					c.Dest2 = "int64"
